@@ -97,9 +97,66 @@ def cuts(stream, points):
     return out
 
 
+def socket_path(ctx, res):
+    """the same property through the node's real read path: a non-blocking socket pair, the selector and
+    LocalPeer.handle_remote_peer_selector_event (recv of at most 1024 bytes per call); a long well-formed stream of
+    GetPeers frames (each is answered with one Peers frame, which is how deliveries are counted), written in pieces whose
+    sizes include exact multiples of the read size; monitors only"""
+    import select
+    import selectors
+    from . import chain, node
+    from skepticoin.networking.messages import GetPeersMessage, PeersMessage, MessageHeader
+    rng = ctx.rng
+    chain.patch(horizon=-1)
+    tree = chain.Tree(rng, chain.Keys(rng, 2))
+    n_frames = 110
+    stream = b"".join(node.frame(MessageHeader(0, 1 + i, 0, 7), GetPeersMessage()) for i in range(n_frames))
+    L = len(stream)
+    plans = [[L], [1024, L - 1024], [2048, L - 2048], [1023, L - 1023], [1025, L - 1025], [8, 1024, L - 1032],
+             [8, 2048, L - 2056], [1024, 1024, L - 2048], [L - 1024, 1024], [L - 2048, 2048], [512, 512, L - 1024]]
+    for _ in range(ctx.scale(10, 60)):
+        a = rng.randrange(1, L - 1)
+        b = rng.randrange(a, L)
+        plans.append([a, b - a, L - b] if b > a else [a, L - a])
+    for plan in plans:
+        plan = [x for x in plan if x > 0]
+        rn = node.RealNode(tree.cs, tree.blocks)
+        c = rn.add_peer(active=True)
+        peer, other = rn.peers[c], rn.sockets[c]
+        other.setblocking(True)
+        pos, dropped = 0, False
+        for size in plan:
+            other.sendall(stream[pos:pos + size])
+            pos += size
+            # read events for as long as the kernel reports the socket readable (what the event loop does)
+            for _guard in range(64):
+                try:
+                    key = rn.lp.selector.get_key(peer.sock)
+                except (KeyError, ValueError):
+                    dropped = True
+                    break
+                if not select.select([peer.sock], [], [], 0)[0]:
+                    break
+                rn.lp.handle_remote_peer_selector_event(key, selectors.EVENT_READ)
+            if dropped:
+                break
+        answered = sum(1 for f in rn.frames(peer) if f != "PARTIAL" and isinstance(f[1], PeersMessage))
+        still = any(q is peer for q in rn.lp.network_manager.connected_peers.values())
+        res.case(("socket", tuple(plan)), nontrivial=True)
+        res.count("socket_path_fragmentations")
+        if answered != n_frames or not still or dropped:
+            res.violations.append({"kind": "through the real socket read path a well-formed stream of %d frames written in "
+                                           "pieces of %s bytes delivered %d frames, connection %s"
+                                           % (n_frames, plan, answered, "kept" if still and not dropped else "DROPPED"),
+                                   "pieces": plan, "stream": stream.hex()})
+        rn.close()
+    chain.unpatch()
+
+
 def run(ctx):
     res = kit.Result()
     rng = ctx.rng
+    socket_path(ctx, res)
     ops, impl = [], []
     kinds = ["plain", "badmagic", "toobig", "atlimit", "pastend", "zerolen", "garbagepayload", "mutated", "long", "short", "short"]
 
